@@ -97,6 +97,14 @@ def run(ctx, res):
     mc = vlib.tlc("Gen_C19", "MC_Loader.cfg" if ctx.quick else "MC_Loader_thorough.cfg", workdir=ctx.work, workers=8,
                   timeout=1500, xmx="6g")
     res.add_tlc(mc)
+    # unbounded histories: the ownership / identity core (LoaderInv.tla) has an inductive invariant, discharged by Apalache
+    ok0, out0 = vlib.apalache("LoaderInv", ["--cinit=CInit", "--init=Init", "--inv=IndInv", "--length=0"], workdir=ctx.work)
+    ok1, out1 = vlib.apalache("LoaderInv", ["--cinit=CInit", "--init=IndInit", "--inv=IndInv", "--length=1"], workdir=ctx.work)
+    if not (ok0 and ok1):
+        raise vlib.ToolError("LoaderInv!IndInv is not inductive: %s" % (out1 if ok0 else out0)[-800:])
+    res.extra["inductive_invariant"] = {"module": "LoaderInv", "invariant": "IndInv (IdsNeverReused, OwnedOnce, NoUseAfterFree, DeadTasksOwnNothing)",
+                                        "initiation": "NoError", "consecution": "NoError", "tool": "apalache-mc 0.58",
+                                        "bounds": "ids 1..4, buffers 1..6, 3 paths; any history length"}
     g = vlib.tlc("Gen_C19", "Gen_C19_quick.cfg" if ctx.quick else "Gen_C19_thorough.cfg", workdir=ctx.work, workers=8,
                  timeout=1500, xmx="6g")
     res.add_tlc(g)
